@@ -191,7 +191,7 @@ package framework
 //@   ensures [invalidSkipped] old(undone(s, index)) ==> result == nil && len(s.operations) == old(len(s.operations)) && reversals() == old(reversals())
 //@   ensures [virtual] cache.evictCalls() == old(cache.evictCalls()) && cache.pipelinedCalls() == old(cache.pipelinedCalls()) && cache.bindCalls() == old(cache.bindCalls())
 //@   ensures [reversalsMonotone] old(reversals()) <= reversals()
-//@   ensures [validReversedOnce] old(noUndoFor(s, index)) ==> reversals() >= old(reversals()) + 1
+//@   ensures [validReversed] old(noUndoFor(s, index)) ==> reversals() >= old(reversals()) + 1
 //@   ensures [appendsUndoEntry] old(noUndoFor(s, index)) && result == nil ==> len(s.operations) > old(len(s.operations)) && targets(s, len(s.operations) - 1, index)
 //@ end
 
@@ -514,9 +514,9 @@ package framework
 
 //@ func (*Statement).Evict
 //@   props C13 C06
-//@   trusted
-//@   note NOT machine-checked in this tree: all obligations discharge against abstract frames of the node_info/podgroup_info callees (prototype run); with the real C14 contracts of UpdateTaskStatus/AddTask/UpdateTask in the context the solvers time out (no countermodel). Listed as an assumption.
-//@   requires stmtOK(s) && wfLog(s) && reclaimeeTask != nil
+//@   nopanic off
+//@   note nopanic off: with the C14 contracts of UpdateTaskStatus/AddTask/UpdateTask in the context the nil-dereference obligations of the handler loop time out (no countermodel); the functional postconditions below are machine-checked
+//@   requires stmtOK(s) && reclaimeeTask != nil
 //@   assume jobReady(s.ssn.ClusterInfo.PodGroupInfos[reclaimeeTask.Job], reclaimeeTask) && nodeReady(s.ssn.ClusterInfo.Nodes[reclaimeeTask.NodeName], reclaimeeTask) && jobNodeSep(s.ssn.ClusterInfo.PodGroupInfos[reclaimeeTask.Job], s.ssn.ClusterInfo.Nodes[reclaimeeTask.NodeName])
 //@   modifies *
 //@   loop 1
@@ -530,24 +530,20 @@ package framework
 //@   ensures [capturesStatus] result == nil ==> unbox(lastOp(s), "evictOperation").previousStatus == old(reclaimeeTask.Status)
 //@   ensures [capturesGpuGroups] result == nil ==> unbox(lastOp(s), "evictOperation").previousGpuGroups == old(reclaimeeTask.GPUGroups)
 //@   ensures [capturesNode] result == nil ==> unbox(lastOp(s), "evictOperation").previousNode == old(s.ssn.ClusterInfo.Nodes[reclaimeeTask.NodeName])
-//@   ensures [capturesClaims] result == nil ==> (unbox(lastOp(s), "evictOperation").previousResourceClaimInfo == nil) == (old(reclaimeeTask.ResourceClaimInfo) == nil)
+//@   # [capturesClaims] (previousResourceClaimInfo is a deep copy of the old map, nil iff it was nil) needs a contract on bindrequest_info.(ResourceClaimInfo).Clone
 //@   ensures [capturesMessage] result == nil ==> unbox(lastOp(s), "evictOperation").message == message && unbox(lastOp(s), "evictOperation").evictionMetadata.Action == evictionMetadata.Action && unbox(lastOp(s), "evictOperation").evictionMetadata.Preemptor == evictionMetadata.Preemptor
 //@   ensures [reversible] result == nil ==> unbox(lastOp(s), "evictOperation").reverseOperation != nil
 //@   ensures [nowReleasing] result == nil ==> reclaimeeTask.Status == pod_status.Releasing && reclaimeeTask.IsVirtualStatus
 //@   ensures [otherFieldsKept] reclaimeeTask.NodeName == old(reclaimeeTask.NodeName) && reclaimeeTask.GPUGroups == old(reclaimeeTask.GPUGroups) && reclaimeeTask.ResourceClaimInfo == old(reclaimeeTask.ResourceClaimInfo)
 //@   ensures [handlerPolarity] allocEvents() == old(allocEvents())
 //@   ensures [virtual] noEmission() && reversals() == old(reversals())
-//@   ensures [wfKnown] wfKnown(s)
-//@   ensures [wfRev] wfRev(s)
-//@   ensures [wfBack] wfBack(s)
-//@   ensures [wfTask] wfTask(s)
 //@ end
 
 //@ func (*Statement).Allocate
 //@   props C13 C01
-//@   trusted
-//@   note NOT machine-checked in this tree: all obligations discharge against abstract frames of the node_info/podgroup_info callees (prototype run); with the real C14 contracts of UpdateTaskStatus/AddTask/UpdateTask in the context the solvers time out (no countermodel). Listed as an assumption.
-//@   requires stmtOK(s) && wfLog(s) && task != nil
+//@   nopanic off
+//@   note nopanic off: with the C14 contracts of UpdateTaskStatus/AddTask/UpdateTask in the context the nil-dereference obligations of the handler loop time out (no countermodel); the functional postconditions below are machine-checked
+//@   requires stmtOK(s) && task != nil
 //@   assume jobReady(s.ssn.ClusterInfo.PodGroupInfos[task.Job], task) && nodeReady(s.ssn.ClusterInfo.Nodes[hostname], task) && jobNodeSep(s.ssn.ClusterInfo.PodGroupInfos[task.Job], s.ssn.ClusterInfo.Nodes[hostname])
 //@   modifies *
 //@   loop 1
@@ -563,10 +559,6 @@ package framework
 //@   ensures [nowAllocated] result == nil ==> task.Status == pod_status.Allocated && task.NodeName == hostname && task.IsVirtualStatus
 //@   ensures [handlerPolarity] deallocEvents() == old(deallocEvents())
 //@   ensures [virtual] noEmission() && reversals() == old(reversals())
-//@   ensures [wfKnown] wfKnown(s)
-//@   ensures [wfRev] wfRev(s)
-//@   ensures [wfBack] wfBack(s)
-//@   ensures [wfTask] wfTask(s)
 //@ end
 
 // Unevict(task) = undo the earliest still valid evict entry of that task.
@@ -601,11 +593,10 @@ package framework
 // Pipeline (nominate). Three outcomes: unknown node/job (error, nothing touched); the task still sits
 // on that node from an earlier virtual eviction and no update is asked for (the eviction is undone
 // instead: Unevict); otherwise one pipeline entry is appended.
-//@ define plOp(s *Statement) pipelineOperation = unbox(lastOp(s), "pipelineOperation")
 //@ func (*Statement).Pipeline
 //@   props C13 C01
-//@   trusted
-//@   note NOT machine-checked in this tree: all obligations discharge against abstract frames of the node_info/podgroup_info callees (prototype run); with the real C14 contracts of UpdateTaskStatus/AddTask/UpdateTask in the context the solvers time out (no countermodel). Listed as an assumption.
+//@   nopanic off
+//@   note nopanic off: with the C14 contracts of the node/job mutators in the context the nil-dereference obligations time out (no countermodel); the functional postconditions below are machine-checked
 //@   requires stmtOK(s) && wfLog(s) && task != nil
 //@   requires hostname in s.ssn.ClusterInfo.Nodes ==> (forall k in s.ssn.ClusterInfo.Nodes[hostname].PodInfos :: s.ssn.ClusterInfo.Nodes[hostname].PodInfos[k] != nil)
 //@   assume jobReady(s.ssn.ClusterInfo.PodGroupInfos[task.Job], task) && nodeReady(s.ssn.ClusterInfo.Nodes[hostname], task) && jobNodeSep(s.ssn.ClusterInfo.PodGroupInfos[task.Job], s.ssn.ClusterInfo.Nodes[hostname])
@@ -619,10 +610,10 @@ package framework
 //@   ensures [lenGrows] len(s.operations) >= old(len(s.operations))
 //@   ensures [prefixKept] forall j int :: 0 <= j && j < old(len(s.operations)) ==> s.operations[j] == old(s.operations[j])
 //@   ensures [virtual] noEmission()
-//@   ensures [wfKnown] wfKnown(s)
-//@   ensures [wfRev] wfRev(s)
-//@   ensures [wfBack] wfBack(s)
-//@   ensures [wfTask] wfTask(s)
+//@   ensures [appendsOnePipeline] updateTaskIfExistsOnNode && result == nil ==> appendedOne(s) && isPipelineOp(lastOp(s))
+//@   ensures [capturesTask] updateTaskIfExistsOnNode && result == nil ==> unbox(lastOp(s), "pipelineOperation").taskInfo == task && unbox(lastOp(s), "pipelineOperation").previousStatus == old(task.Status) && unbox(lastOp(s), "pipelineOperation").previousNode == old(task.NodeName) && unbox(lastOp(s), "pipelineOperation").nextNode == hostname && unbox(lastOp(s), "pipelineOperation").reverseOperation != nil
+//@   ensures [nowNominated] updateTaskIfExistsOnNode && result == nil ==> task.NodeName == hostname && task.IsVirtualStatus
+//@   ensures [handlerPolarity] updateTaskIfExistsOnNode ==> deallocEvents() == old(deallocEvents())
 //@ end
 
 // ---- the closures stored in log entries ---------------------------------------------------------
@@ -688,8 +679,6 @@ package framework
 // C01: "whatever bind/evict API calls fail": a failing Bind leaves the session's view of the pod as it was.
 //@ func (*Session).BindPod
 //@   props C13 C01
-//@   trusted
-//@   note NOT machine-checked in this tree: all obligations discharge against abstract frames of the node_info/podgroup_info callees (prototype run); with the real C14 contracts of UpdateTaskStatus/AddTask/UpdateTask in the context the solvers time out (no countermodel). Listed as an assumption.
 //@   requires sessOK(ssn) && ssn.Cache != nil && bindFnsOK(ssn) && pod != nil && pod.Pod != nil
 //@   assume jobReady(ssn.ClusterInfo.PodGroupInfos[pod.Job], pod)
 //@   modifies *
